@@ -115,14 +115,24 @@ func miscOp(f []string) (string, bool) {
 		}
 		p := utils.NewGFPoly(gf, ints(f[5]))
 		q := utils.NewGFPoly(gf, ints(f[6]))
+		// the accessors of the result are part of the observation: Degree, Zero, GetCoefficient(0 and Degree)
+		acc := func(r *utils.GFPoly) string {
+			z := 0
+			if r.Zero() {
+				z = 1
+			}
+			return fmt.Sprintf(" deg=%d zero=%d lo=%d hi=%d", r.Degree(), z, r.GetCoefficient(0), r.GetCoefficient(r.Degree()))
+		}
 		switch f[4] {
 		case "add":
-			return "ok r=" + joinInts(p.AddOrSubstract(q).Coefficients), true
+			r := p.AddOrSubstract(q)
+			return "ok r=" + joinInts(r.Coefficients) + acc(r), true
 		case "mul":
-			return "ok r=" + joinInts(p.Multiply(q).Coefficients), true
+			r := p.Multiply(q)
+			return "ok r=" + joinInts(r.Coefficients) + acc(r), true
 		case "div":
 			quo, rem := p.Divide(q)
-			return "ok q=" + joinInts(quo.Coefficients) + " r=" + joinInts(rem.Coefficients), true
+			return "ok q=" + joinInts(quo.Coefficients) + " r=" + joinInts(rem.Coefficients) + acc(rem), true
 		}
 	case "rs":
 		// rs <pp> <size> <base> <k1>:<data1>;<k2>:<data2>;…   one shared encoder, calls in order
